@@ -28,3 +28,8 @@ CLAIMS["C13"] = (
     "Generated boxes, centres, radii/heights (to beyond the box), shells, shape names and mask lists of mixed dtypes; hard masks are compared voxel by voxel with analytic inequalities evaluated in exact arithmetic, soft masks with range/core bounds, set operations with numpy Boolean algebra and input-immutability. Held on everything explored.",
     "Integer/half-integer radii (no floating-point ties); ellipsoid voxels within 1e-12 of the boundary (other than on-axis ones) are skipped.",
 )
+CLAIMS["C15"] = (
+    "property-based model test: stack as a list of 2-D images, every op compared with a numpy selection/permutation model; written files parsed by an independent MRC reader",
+    "Generated non-square stacks through sort/remove/even-odd/flip/crop/bin in all four order combinations, array and file input (file written by the harness' own MRC writer), with the returned array and the written file compared to the image-list model. Held on everything explored.",
+    "Binning compares full blocks only; int16 within 1; trusts the harness MRC writer/parser.",
+)
